@@ -30,6 +30,20 @@ def load_findings():
 
 def _match_val(m, s):
     if isinstance(m, dict):
+        if "__re__" in m:
+            import re
+
+            return s is not None and re.fullmatch(m["__re__"], str(s)) is not None
+        if "__has__" in m:
+            return isinstance(s, (list, tuple)) and m["__has__"] in s
+        if "__any_item__" in m:
+            return isinstance(s, (list, tuple)) and any(_match_val(m["__any_item__"], x) for x in s)
+        if isinstance(s, (list, tuple)):
+            # positional: keys are indices
+            try:
+                return all(int(mk) < len(s) and _match_val(mv, s[int(mk)]) for mk, mv in m.items())
+            except ValueError:
+                return False
         if not isinstance(s, dict):
             return False
         return all(_match_val(mv, s.get(mk)) for mk, mv in m.items())
